@@ -481,7 +481,8 @@ func getParamsCount(stmt sqlparser.Statement) (int, error) {
 
 func (handler *Handler) handleStatementExecute(ctx context.Context, packet *Packet) (uint32, error) {
 	packetData := packet.GetData()
-	if len(packetData) < 2 {
+	// 1 byte of command + 4 bytes of statement id
+	if len(packetData) < 5 {
 		handler.logger.Debug("Execute statement packet has not enough data")
 		return 0, ErrInvalidResponseLength
 	}
